@@ -66,6 +66,10 @@ def cases(draw, tier):
     if kind == "components" and draw(st.integers(0, 5)) == 0:
         case["content_param"] = True     # a parameter described with 'content' instead of 'schema' (valid OpenAPI), inline and by reference
     if kind == "schemas":
+        for _n, sc in ir["schemas"]:
+            # a component enum with a default of its own: the inline copy carries it to the property, so must the reference
+            if sc["k"] == "enum" and not sc.get("null") and draw(st.integers(0, 2)) == 0:
+                sc["default"] = sc["values"][0]
         flat = [n for n, sc in ir["schemas"] if sc["k"] == "object" and not sc.get("allOf")]
         if flat and draw(st.integers(0, 2)) == 0:
             # a top-level array component whose inline item composes a component (item objects of such arrays are built at another
@@ -333,6 +337,30 @@ def _run_schemas(case, ctx):
                 # class identity in the by-reference package
                 if ra[0] is None:
                     _identity(ctx, ra[1][0], s, comps, ma)
+            # what omitting an argument encodes: the constructor defaults of one class under both spellings
+            import enum as _enum
+            import inspect as _inspect
+
+            def _wire(v):
+                if type(v).__name__ == "Unset":
+                    return "UNSET"
+                return v.value if isinstance(v, _enum.Enum) else v
+
+            for name, s in ir["schemas"]:
+                if s["k"] != "object":
+                    continue
+                ca, cb = getattr(ma, name, None), getattr(mb, name, None)
+                if ca is None or cb is None:
+                    continue
+                da = {k_: _wire(p_.default) for k_, p_ in _inspect.signature(ca).parameters.items() if p_.default is not _inspect.Parameter.empty}
+                db = {k_: _wire(p_.default) for k_, p_ in _inspect.signature(cb).parameters.items() if p_.default is not _inspect.Parameter.empty}
+                ctx.evals()
+                for k_ in sorted(set(da) & set(db)):
+                    if not instances.json_eq(da[k_], db[k_]) if not (isinstance(da[k_], str) and isinstance(db[k_], str)) else da[k_] != db[k_]:
+                        via_default = any(p_[1].get("k") == "ref" and comps.get(p_[1]["name"], {}).get("default") is not None
+                                          for p_ in instances.flatten_object(s, comps)[0])
+                        ctx.violation("inline.same_defaults", {"pos": "schema", **({"component_default_through_reference": True} if via_default else {})},
+                                      f"{name}.{k_}: by-reference default {da[k_]!r}, inline default {db[k_]!r}"[:300])
         if bt.used:
             ctx.nontrivial([docs.render(ir), case["bits"]])
             ctx.sample = {"kind": "schemas", "inlined_positions": bt.used, "components": [n for n, _ in ir["schemas"]]}
